@@ -41,12 +41,20 @@ def replay(path):
     return et.replay(PROP, path)
 
 
+# open finding -> harness option that confines its trigger to a dedicated sub-workload (see etstress.c)
+SWITCHES = {"C11-save-options-nolock": "saveopt", "C11-reinit-handle-race": "conc_reinit",
+            "C11-destroy-vs-reload": "reload_destroy"}
+
+
 def stress_opts():
     """Workload switches tied to open known findings (they disappear with the entry)."""
     opts = {}
     for e in vdriver.Known().entries:
-        if e.get("status") == "open" and any(k.startswith("timer:et:missed-deadline:idle-kept-open-conn")
-                                              for k in e.get("keys", [])):
+        if e.get("status") != "open":
+            continue
+        if e.get("id") in SWITCHES:
+            opts[SWITCHES[e["id"]]] = 0
+        if any(k.startswith("timer:et:missed-deadline:idle-kept-open-conn") for k in e.get("keys", [])):
             # while "a query on an idle kept-open connection is never timed out" is open, every STAYOPEN stress
             # run would end in that (C07) finding's missed deadline; the timers profile is its dedicated workload
             opts["stayopen"] = 0
